@@ -211,7 +211,7 @@ def run_unit(unit, tier, seed):
     text_lines = text.split('\n')
     # --- trusted base scan against the committed allow-list
     trusted = extract.trusted_scan(text)
-    res['trusted'] = ['%s %s' % (t['kind'], t['what']) for t in trusted]
+    res['trusted'] = [('%s %s' % (t['kind'], t['what'])).strip() for t in trusted]
     # opaque payload types generated by a field mirror follow the dependency, not the allow-list
     n_opaque = len([t for t in res['trusted'] if re.match(r'external_body struct T_', t)])
     res['trusted'] = [t for t in res['trusted'] if not re.match(r'external_body struct T_', t)]
@@ -269,8 +269,8 @@ def run_unit(unit, tier, seed):
             rr = run_verus(mpath, rlimit=u.get('rlimit'))
             tmp = {'undecided': [], 'failed': {}, 'canaries': [], 'solver_ms': 0, 'fn_success': {}}
             _collect(rr, tmp, extract.obl_labels(mtext), fnmap, mtext.split('\n'), canaries, unit, os.path.basename(mpath))
-            killed = [o for o in tmp['failed'] if any(o.startswith(e) for e in expect)]
-            res['mutants'].append({'name': mname, 'status': 'killed' if killed else 'SURVIVED', 'by': sorted(tmp['failed']), 'undecided': tmp['undecided']})
+            killed = [o for o in tmp['failed'] if o not in res['failed'] and any(o.startswith(e) for e in expect)]
+            res['mutants'].append({'name': mname, 'status': 'killed' if killed else 'SURVIVED', 'by': sorted(o for o in tmp['failed'] if o not in res['failed']), 'undecided': tmp['undecided']})
             os.remove(mpath)
             if not killed:
                 res['undecided'].append('vacuity guard: built-in negative control %s not detected (%s)' % (mname, tmp['undecided'] or sorted(tmp['failed'])))
